@@ -7,6 +7,7 @@ import (
 	"fmt"
 	"io"
 	"os"
+	"slices"
 	"sort"
 	"strings"
 	"sync"
@@ -471,6 +472,8 @@ func TestC18CompRegress(t *testing.T) { vt.Regress(t, prop, "testdata", runComp)
 type FrameCase struct {
 	Msgs   []Payload `json:"msgs"`   // the command byte strings written to the snapshot file (non-empty)
 	Chunks []int     `json:"chunks"` // read sizes handed to snapshot.Writer, cycled (chunk boundaries)
+	// ViaWrite: the raw file is handed to Writer.Write in pieces of the given sizes (0 = a zero-length write) instead of Writer.ReadFrom
+	ViaWrite bool `json:"via_write,omitempty"`
 }
 
 // blockSize is the amount of uncompressed data the snapshot file's buffered snappy writer puts into one block when it is fed
@@ -507,6 +510,14 @@ func genFrame(t *rapid.T) FrameCase {
 		c.Msgs = append(c.Msgs, p)
 	}
 	c.Chunks = rapid.SliceOfN(rapid.SampledFrom([]int{1, 2, 3, 7, 8, 9, 15, 16, 17, 100, 4096, 65536, 1 << 20}), 1, 6).Draw(t, "chunks")
+	if rapid.IntRange(0, 2).Draw(t, "viaWrite") == 0 {
+		// shipped through Writer.Write (what the snapshot server's buffered/compressing writers call), zero-length writes included
+		c.ViaWrite = true
+		c.Chunks = rapid.SliceOfN(rapid.SampledFrom([]int{0, 0, 1, 3, 8, 9, 100, 4096, 65536, 1 << 20}), 1, 6).Draw(t, "wchunks")
+		if !slices.ContainsFunc(c.Chunks, func(x int) bool { return x > 0 }) {
+			c.Chunks = append(c.Chunks, 4096)
+		}
+	}
 	return c
 }
 
@@ -593,7 +604,27 @@ func runFrame(c FrameCase, o *vt.Obs) *vt.Failure {
 	}
 	// 2. ship the raw file as a chunk stream with generated chunk boundaries
 	pipe := &chunkPipe{codec: encoding.GetCodec("proto")}
-	if _, err := io.Copy(&snapshot.Writer{Sender: pipe}, &cycledReader{r: sf.File, sizes: c.Chunks}); err != nil {
+	if c.ViaWrite {
+		w := &snapshot.Writer{Sender: pipe}
+		raw, err := io.ReadAll(sf.File)
+		if err != nil {
+			return vt.Failf(prop+"/snapshot-file-read", 0, "%v", err)
+		}
+		empties := 0
+		for i := 0; len(raw) > 0; i++ {
+			n := min(c.Chunks[i%len(c.Chunks)], len(raw))
+			if n == 0 {
+				empties++
+			}
+			if wn, err := w.Write(raw[:n]); err != nil || wn != n {
+				return vt.Failf(prop+"/chunk-writer", i, "Write of %d bytes: n=%d err=%v", n, wn, err)
+			}
+			raw = raw[n:]
+		}
+		if empties > 0 {
+			o.Label("zero-length-chunk-in-stream")
+		}
+	} else if _, err := io.Copy(&snapshot.Writer{Sender: pipe}, &cycledReader{r: sf.File, sizes: c.Chunks}); err != nil {
 		return vt.Failf(prop+"/chunk-writer", 0, "%v", err)
 	}
 	// 3. receive it the way the replication worker does and store it
